@@ -35,6 +35,95 @@ REVIEWED_HOM_USES = {
 }
 
 
+# A receiver that is an entry of a local table (possibly a field of a record kept in the table) is judged by what the
+# function stores into that table: (function, text of the stored value) -> the reviewed receiver it stands for
+REVIEWED_HOM_SOURCES = {
+    ("whatshap.vcf.PhasedVcfWriter.write", "Genotype(list(phasing))"): "genotypes[pos]",
+    ("whatshap.vcf.PhasedVcfWriter.write", "genotype_code(call['GT'])"): "gt_type",
+}
+
+# The review of the two receivers in PhasedVcfWriter.write says what the result may be used for: it decides nothing unless
+# the solver produced a phase for the position.  A flag named is_het is one way to carry it there; testing it directly in
+# the condition that also tests membership in the phase table is the other.
+REVIEWED_HOM_USES_WITH = {
+    "whatshap.vcf.PhasedVcfWriter.write": "pos in <phase table>",
+}
+
+
+def table_entry_sources(fi, expr):
+    """Texts of the values the function stores into the table entry that ``expr`` reads (T[a][b], T[a][b].field, with
+    locals standing for sub-tables resolved); None if ``expr`` is not such a lookup or a store cannot be read."""
+    # tables are named by the local they are created under
+    tables = {t_.id for s_ in walk_function(fi.node) if isinstance(s_, (ast.Assign, ast.AnnAssign)) and s_.value is not None and isinstance(s_.value, (ast.Dict, ast.List, ast.Call)) and not getattr(s_.value, "keys", None) and not getattr(s_.value, "elts", None) and (not isinstance(s_.value, ast.Call) or u(s_.value.func) in ("dict", "list", "defaultdict", "collections.defaultdict", "OrderedDict")) for t_ in (s_.targets if isinstance(s_, ast.Assign) else [s_.target]) if isinstance(t_, ast.Name)}
+
+    def _g(e_):
+        e_ = util.expand_single_defs(fi.node, e_, keep=tables)
+        for x_ in list(ast.walk(e_)):
+            if isinstance(x_, ast.Call) and isinstance(x_.func, ast.Attribute) and x_.func.attr == "get" and len(x_.args) == 1 and not x_.keywords:
+                x_.__class__ = ast.Subscript
+                x_.value, x_.slice, x_.ctx = x_.func.value, x_.args[0], ast.Load()
+                x_._fields = ast.Subscript._fields
+        return e_
+
+    e = _g(expr)
+    fields = []
+    while isinstance(e, ast.Attribute):
+        fields.append(e.attr)
+        e = e.value
+    depth = 0
+    while isinstance(e, ast.Subscript):
+        depth += 1
+        e = e.value
+    if not isinstance(e, ast.Name) or depth == 0:
+        return None
+    root = e.id
+    out = []
+    for st in util.store_sites(fi.node):
+        if st.kind != "subscript":
+            continue
+        t = _g(st.target)
+        d = 0
+        while isinstance(t, ast.Subscript):
+            d += 1
+            t = t.value
+        if not (isinstance(t, ast.Name) and t.id == root):
+            continue
+        if d < depth:
+            if isinstance(st.value, (ast.Dict, ast.Call)) and not getattr(st.value, "keys", None) and not getattr(st.value, "args", None) and not getattr(st.value, "keywords", None):
+                continue  # an empty sub-table
+            return None
+        if d > depth:
+            return None
+        v = st.value
+        for f in reversed(fields):
+            if isinstance(v, ast.Tuple):
+                # a record written as a plain tuple (or normalised to one): the field's index comes from the record class
+                idx = set()
+                for c in ast.walk(fi.module.tree):
+                    if isinstance(c, ast.ClassDef):
+                        names = [b.target.id for b in c.body if isinstance(b, ast.AnnAssign) and isinstance(b.target, ast.Name)]
+                        if f in names and len(names) == len(v.elts):
+                            idx.add(names.index(f))
+                if len(idx) != 1:
+                    return None
+                v = v.elts[idx.pop()]
+                continue
+            if not isinstance(v, ast.Call):
+                return None
+            kw = [k.value for k in v.keywords if k.arg == f]
+            if kw:
+                v = kw[0]
+                continue
+            cls = [c for c in ast.walk(fi.module.tree) if isinstance(c, ast.ClassDef) and c.name == u(v.func)]
+            names = [b.target.id for b in cls[0].body if isinstance(b, ast.AnnAssign) and isinstance(b.target, ast.Name)] if len(cls) == 1 else []
+            if f in names and names.index(f) < len(v.args):
+                v = v.args[names.index(f)]
+            else:
+                return None
+        out.append(u(v))
+    return out or None
+
+
 def hom_use_kind(n):
     """What an `X.is_homozygous()` call is used for (see REVIEWED_HOM_USES)."""
     stmt = util.stmt_of(n)
@@ -148,7 +237,25 @@ def check_none_before_hom(ctx, fi):
 
             by_canon = {canon(k_[1]): k_[1] for k_ in REVIEWED_HOM_SITES if k_[0] == fi.qual}
             origins = [by_canon.get(canon(o), o) if (fi.qual, o) not in REVIEWED_HOM_SITES else o for o in origins]
+            # an entry of a local table stands for what the function stores there
+            import os as _os
+            for i_, o in enumerate(origins):
+                if (fi.qual, o) in REVIEWED_HOM_SITES:
+                    continue
+                try:
+                    srcs = table_entry_sources(fi, ast.parse(o, mode="eval").body)
+                except SyntaxError:
+                    srcs = None
+                if _os.environ.get("VERIF_DEBUG"): print("DBG srcs", o, srcs, [(u(st.target), u(st.value)[:80]) for st in util.store_sites(fi.node) if st.kind == "subscript"])
+                for (q_, src_), key_ in REVIEWED_HOM_SOURCES.items():
+                    if q_ == fi.qual and canon(o) == canon(src_):
+                        origins[i_] = key_
+                if (fi.qual, origins[i_]) in REVIEWED_HOM_SITES:
+                    continue
+                if srcs and all((fi.qual, s_) in REVIEWED_HOM_SOURCES for s_ in srcs) and len({REVIEWED_HOM_SOURCES[(fi.qual, s_)] for s_ in srcs}) == 1:
+                    origins[i_] = REVIEWED_HOM_SOURCES[(fi.qual, srcs[0])]
             reasons = [REVIEWED_HOM_SITES.get((fi.qual, o)) for o in origins]
+            if _os.environ.get("VERIF_DEBUG"): print("DBG hom", fi.qual, recv, origins, reasons, hom_use_kind(n))
             reason = "; ".join(sorted(set(reasons))) if reasons and all(r is not None for r in reasons) else None
             if reason is not None:
                 # a reviewed instance is one USE of the receiver, not every use of it in the function
@@ -156,7 +263,10 @@ def check_none_before_hom(ctx, fi):
                 for o in origins:
                     allowed = REVIEWED_HOM_USES.get((fi.qual, o))
                     if allowed is not None and kind not in allowed:
-                        reason = None
+                        w_ = REVIEWED_HOM_USES_WITH.get(fi.qual)
+                        st_ = util.stmt_of(n)
+                        if not (w_ is not None and kind == "branch" and isinstance(st_, ast.If) and any(isinstance(c_, ast.Compare) and len(c_.ops) == 1 and isinstance(c_.ops[0], (ast.In, ast.NotIn)) and u(c_.left) == "pos" and u(c_.comparators[0]) != "components" for c_ in ast.walk(st_.test))):
+                            reason = None
         ok = reason is not None
         ctx.ob(
             fi.qual,
